@@ -133,7 +133,7 @@ def gen_interp2d(ctx):
     do_interp2d(ctx, [0.5, 1, 2.5, -1, 7, 1.5, 0, 3], [0, 1, 2, 3], doc_f, True, 'corpus')
     do_interp2d(ctx, [-1.0, 2.0, 5.0], [2.0], [[1.5, -2.0]], True, 'corpus')
     do_interp2d(ctx, [], [1.0, 2.0], [[1.0], [2.0]], True, 'corpus')
-    n_cases = 150 if ctx.tier == 'quick' else 2500
+    n_cases = 500 if ctx.tier == 'quick' else 12000
     for it in range(n_cases):
         exact = it % 3 == 0
         n = rng.choice([1, 2, 2, 3, 3, 4, 5, 7, 12])
@@ -225,7 +225,7 @@ def gen_interp_left(ctx):
     do_interp_left(ctx, 2.0, [1.0, 2.0, 2.0, 3.0], None, True, 'list', 'corpus')
     do_interp_left(ctx, 0.5, [1.0, 2.0, 3.0], [5.0, 6.0, 7.0], True, 'array', 'corpus')
     do_interp_left(ctx, [3.0, 9.0, 1.0], [1.0, 2.0, 3.0], None, False, 'array', 'corpus')
-    n_cases = 150 if ctx.tier == 'quick' else 2500
+    n_cases = 500 if ctx.tier == 'quick' else 12000
     for it in range(n_cases):
         n = rng.choice([1, 2, 3, 4, 6, 10, 40])
         if it % 3 == 0:
@@ -258,16 +258,24 @@ def gen_interp_left(ctx):
 # ----------------------------------------------------------------------------------------------------------------------
 
 def spec_roll(v, steps, mode):
+    """mean over the window of `steps` samples of the edge-replicated series, exact"""
     n = len(v)
     off = {'forward': 0, 'backward': steps - 1}.get(mode, steps // 2)
-    out = []
-    for i in range(n):
-        tot = Fraction(0)
-        for j in range(steps):
-            k = min(max(i + j - off, 0), n - 1)
-            tot += v[k]
-        out.append(tot / steps)
-    return out
+    if n * steps <= 20000:
+        out = []
+        for i in range(n):
+            tot = Fraction(0)
+            for j in range(steps):
+                k = min(max(i + j - off, 0), n - 1)
+                tot += v[k]
+            out.append(tot / steps)
+        return out
+    # long records: the same sums through exact prefix sums of the edge-replicated series
+    ext = [v[0]] * off + list(v) + [v[-1]] * (steps - 1 - off)
+    pre = [Fraction(0)]
+    for x in ext:
+        pre.append(pre[-1] + x)
+    return [(pre[i + steps] - pre[i]) / steps for i in range(n)]
 
 
 def do_roll(ctx, v, steps, mode, exact, kind, container='float_array'):
@@ -329,7 +337,7 @@ def gen_roll(ctx):
                     exact = rep % 2 == 0 and steps & (steps - 1) == 0
                     do_roll(ctx, v, steps, mode, exact, 'all-windows')
     ctx.flush()
-    n_cases = 120 if ctx.tier == 'quick' else 2000
+    n_cases = 300 if ctx.tier == 'quick' else 5000
     for it in range(n_cases):
         if it % 3 == 0:
             n = gen.log_int(rng, 1, 64)
@@ -415,8 +423,9 @@ def do_step(ctx, v, kind, container, pows=(1, 2), dirs=(None,), inds=()):
                            bad is None, inputs,
                            detail=None if bad is None else {'split': bad, 'got': float(got[bad]), 'want': float(want[bad]),
                                                             'got_all': out.tolist()[:12], 'want_all': [float(x) for x in want[:12]]},
-                           facts={'fn': 'calc_step_fn_vals_error', 'pow': p, 'container': container,
-                                  'negative_side_mean': any(fmean(fv[:k + 1]) < 0 or (fv[k + 1:] and fmean(fv[k + 1:]) < 0) for k in range(n))})
+                           facts=None if bad is None else {
+                               'fn': 'calc_step_fn_vals_error', 'pow': p, 'container': container,
+                               'negative_side_mean': any(fmean(fv[:k + 1]) < 0 or (fv[k + 1:] and fmean(fv[k + 1:]) < 0) for k in range(n))})
     # ---- levels
     if spec1 is None:
         spec1 = spec_step_err(fv, 1)
@@ -493,9 +502,9 @@ def gen_step(ctx):
             for cont in ('float_array', 'int_array', 'int_list'):
                 do_step(ctx, list(v), f'exhaustive/len={n}', cont, pows=(1, 2), inds=())
         ctx.flush()
-    n_cases = 150 if ctx.tier == 'quick' else 2500
+    n_cases = 400 if ctx.tier == 'quick' else 5000
     for it in range(n_cases):
-        n = gen.log_int(rng, 1, 40 if ctx.tier == 'quick' else 150)
+        n = gen.log_int(rng, 1, 40 if ctx.tier == 'quick' else 100)
         sign = rng.choice(['neg', 'pos', 'mixed', 'mixed'])
         if it % 3 == 0:
             kind = rng.choice(['int', 'plateau', 'dyadic', 'twolevel'])
@@ -562,7 +571,7 @@ def gen_spectra(ctx):
     quick = ctx.tier == 'quick'
     factors = [(1.0, 1.0, 1.0), (0.4, 1.3, 1.1), (0.13, 0.25, 1.0)] if quick else \
         [(1.0, 1.0, 1.0), (0.4, 1.3, 1.1), (0.13, 0.25, 1.0), (0.6, 1.8, 1.2), (0.3, 0.5, 1.05), (0.25, 1.0, 1.0)]
-    grid = [6.0 * i / (150 if quick else 2000) for i in range((150 if quick else 2000) + 1)]
+    grid = [6.0 * i / (400 if quick else 2000) for i in range((400 if quick else 2000) + 1)]
     grid += [rng.uniform(0, 6) for _ in range(60 if quick else 600)] + [1e-12, 5e-324, 10.0, 123.456, 1e6]
     for cls in ('C', 'D', 'E'):
         periods = list(grid)
